@@ -339,6 +339,8 @@ func (e *Exec) invoke(d deferred) (Value, *GoPanic) {
 		return e.callFn(fn, d.args, f.Bind)
 	case *ssa.Builtin:
 		return e.callBuiltin(fn, d.args, nil)
+	case nopFn:
+		return nil, nil
 	}
 	panic("internal: bad callee")
 }
